@@ -329,7 +329,7 @@ def build_c04(events, shapes, default_skip=None, want_mode=None, rng=None, strin
 
 
 # ------------------------------------------------------------------ C09
-FAULTS = ['wrong-output', 'wrong-output-marker', 'wrong-output-long', 'exception', 'called-exception', 'helper-long', 'helper-short', 'compile', 'compile-late', 'badrepr',
+FAULTS = ['wrong-output', 'wrong-output-marker', 'wrong-output-long', 'exception', 'exception-ignorewant', 'exception-ignorewant-inline', 'called-exception', 'helper-long', 'helper-short', 'compile', 'compile-late', 'badrepr',
           'badrepr-stdout', 'bad-directive', 'bad-directive-inline']
 
 
@@ -389,6 +389,16 @@ def build_c09(fault, pos, pre_want, multi, on_error='return', verbose=0, helper_
         failing_line = 'want'
     elif fault == 'exception':
         g = gd.Group('raise', k)
+        kind = 'exception'
+        exc_type = 'ValueError'
+    elif fault in ('exception-ignorewant', 'exception-ignorewant-inline'):
+        # IGNORE_WANT switches the comparison of wants off; it must not switch exceptions off
+        if fault == 'exception-ignorewant':
+            groups.append(gd.Group('block', -1, block=['+IGNORE_WANT']))
+            g = gd.Group('raise', k)
+        else:
+            g = gd.Group('raise', k, inline=['+IGNORE_WANT'])
+        g.want = 'some expected text'
         kind = 'exception'
         exc_type = 'ValueError'
     elif fault == 'called-exception':
